@@ -197,6 +197,10 @@ def check_ldf(acc, vector, start, w, h, case):
                           "longest_dimension_first%r from %r ends at %r, "
                           "expected %r" % (vector, start, pos, end))
         seen_orders.add(tuple(d for d, _ in path))
+        # the list belongs to the caller, who may do with it what they like:
+        # later calls (same vector, other tie-breaks, other starts) must not
+        # see the difference
+        del path[:]
 
     with_owned_random(
         lambda: guarded(longest_dimension_first, vector, start, w, h),
